@@ -20,6 +20,7 @@
 #include <gsl/gsl_integration.h>
 #include <bxdecay0/mdl_event_op.h>
 #include <memory>
+#include <ctime>
 #include <map>
 #include <set>
 #include <string>
@@ -254,9 +255,19 @@ static void check(const std::vector<int> & prefix, const Outcome & o)
   if (samples.size() < 3 && np > 4) samples.push_back(sched_str(np));
 }
 
+static double BUDGET = 1e18, T0 = 0;
+static double now_s()
+{
+  struct timespec ts;
+  clock_gettime(CLOCK_MONOTONIC, &ts);
+  return ts.tv_sec + 1e-9 * ts.tv_nsec;
+}
 static void explore(const std::vector<int> & prefix, int cost_before)
 {
   if (nsched >= MAXSCHED) { capped = true; return; }
+  // wall-clock budget: a library with many more synchronisation points than expected makes the schedule space explode;
+  // what was explored (and any violation met) is reported, the run is marked as capped
+  if (now_s() - T0 > BUDGET) { capped = true; return; }
   Outcome o = run_one(prefix);
   nsched++;
   check(prefix, o);
@@ -291,6 +302,7 @@ int main(int argc, char ** argv)
     else if (a == "--bound") BOUND = atoi(nxt().c_str());
     else if (a == "--out") out = nxt();
     else if (a == "--max-schedules") MAXSCHED = atol(nxt().c_str());
+    else if (a == "--budget") BUDGET = atof(nxt().c_str());
   }
   setenv("BXDECAY0_RESOURCE_DIR", "/repo/resources", 0);
   if (HARNESS == "l1a") { NT = 2; KIND[0] = 0; KIND[1] = 1; NCALLS = 1; }
@@ -349,6 +361,7 @@ int main(int argc, char ** argv)
       return 3;
     }
   }
+  T0 = now_s();
   explore({}, 0);
   FILE * fo = fopen(out.c_str(), "w");
   auto js = [](const std::string & s) {
